@@ -291,6 +291,10 @@ def params_for(kind, L, T, K, x):
         cfg['noimp'] = True
     if x.get('ramey') is False:
         extra.update({'Ramey Production Wellbore Model': 0, 'Production Wellbore Temperature Drop': 5})
+    if x.get('addon'):
+        cfg['addon'] = int(x['addon'])
+    if x.get('sdac'):
+        extra.update({'Do S-DAC-GT Calculations': True})
     if x.get('segments'):
         n = x['segments']
         extra.update({'Number of Segments': n})
